@@ -46,10 +46,18 @@ package metadata
 //@   ensures res0 == nil <==> RegisteredInt(value)
 //@   ensures RegisteredInt(value) ==> m.valuesInt[value] == v && has(m.valuesInt, value)
 
+// boolSets / strSets: how often a registered boolean / string entry of m was written; lastBool / lastStr: the value
+// written last (ghost history: the stored value itself may be overwritten by another goroutine at any time).
+//@ ghost boolSets gmap[ref]gmap[string]int
+//@ ghost lastBool gmap[ref]gmap[string]bool
+//@ ghost strSets gmap[ref]gmap[string]int
+//@ ghost lastStr gmap[ref]gmap[string]string
 //@ func (*Metadata).SetBool
 //@   props C15 C12
 //@   locks m
 //@   requires m != nil
+//@   effect boolSets := ite(RegisteredBool(value), upd(boolSets, m, upd(boolSets[m], value, boolSets[m][value] + 1)), boolSets)
+//@   effect lastBool := ite(RegisteredBool(value), upd(lastBool, m, upd(lastBool[m], value, v)), lastBool)
 //@   ensures res0 == nil <==> (has(TargetBoolValues, value) && TargetBoolValues[value])
 //@   ensures res0 == nil ==> m.valuesBool[value] == v && has(m.valuesBool, value)
 
@@ -57,6 +65,8 @@ package metadata
 //@   props C15 C12
 //@   locks m
 //@   requires m != nil
+//@   effect strSets := ite(RegisteredStr(value), upd(strSets, m, upd(strSets[m], value, strSets[m][value] + 1)), strSets)
+//@   effect lastStr := ite(RegisteredStr(value), upd(lastStr, m, upd(lastStr[m], value, v)), lastStr)
 //@   ensures res0 == nil <==> (has(TargetStrValues, value) && TargetStrValues[value] != nil)
 //@   ensures res0 == nil ==> m.valuesStr[value] == v && has(m.valuesStr, value)
 
@@ -95,6 +105,7 @@ package metadata
 //@   props C15 C14 C12
 //@   locks m
 //@   requires m != nil
+//@   modifies ghost boolSets, ghost lastBool, ghost strSets, ghost lastStr
 //@   effect resetDone := ite(res0 == nil, upd(resetDone, m, union1(resetDone[m], entry)), resetDone)
 //@   ensures [known-entry C14] res0 == nil <==> (RegisteredBool(entry) || RegisteredInt(entry) || RegisteredStr(entry))
 //@   ensures [bool-false C14] RegisteredBool(entry) ==> has(m.valuesBool, entry) && !m.valuesBool[entry]
@@ -111,7 +122,7 @@ package metadata
 //@   props C15 C14 C12
 //@   locks m
 //@   requires m != nil
-//@   modifies ghost resetDone
+//@   modifies ghost resetDone, ghost boolSets, ghost lastBool, ghost strSets, ghost lastStr
 //@   invariant 0: (forall k string :: has($visited, k) && RegisteredBool(k) ==> has(resetDone[m], k)) && (forall x ref :: x != m ==> resetDone[x] == old(resetDone[x]))
 //@   invariant 1: (forall k string :: RegisteredBool(k) ==> has(resetDone[m], k)) && (forall k string :: has($visited, k) && RegisteredInt(k) ==> has(resetDone[m], k)) && (forall x ref :: x != m ==> resetDone[x] == old(resetDone[x]))
 //@   invariant 2: (forall k string :: RegisteredBool(k) || RegisteredInt(k) ==> has(resetDone[m], k)) && (forall k string :: has($visited, k) && RegisteredStr(k) ==> has(resetDone[m], k)) && (forall x ref :: x != m ==> resetDone[x] == old(resetDone[x]))
@@ -120,5 +131,5 @@ package metadata
 
 //@ func New
 //@   props C14 C12
-//@   modifies ghost resetDone
+//@   modifies ghost resetDone, ghost boolSets, ghost lastBool, ghost strSets, ghost lastStr
 //@   ensures res0 != nil && fresh(res0)
